@@ -509,3 +509,110 @@ pub fn c03_predictors_interior_fast_path() {
 pub fn c03_predictors_and_properties_match_spec_5x3() {
     predictor_scan::<5, 3>(true, true, Some((2, 2)));
 }
+
+/// ISO/IEC 18181-1 H.6.2.1 default squeeze parameters for `count` channels starting at `first`
+/// whose first channel is w x h; `second_same` = the next channel has the same size.
+fn spec_default_squeeze(first: u32, count: u32, mut w: u32, mut h: u32, second_same: bool, out: &mut [(bool, bool, u32, u32); 16]) -> usize {
+    let mut n = 0;
+    if count > 2 && second_same {
+        out[n] = (true, false, first + 1, 2);
+        n += 1;
+        out[n] = (false, false, first + 1, 2);
+        n += 1;
+    }
+    if h >= w && h > 8 {
+        out[n] = (false, true, first, count);
+        n += 1;
+        h = (h + 1) / 2;
+    }
+    while w > 8 || h > 8 {
+        if w > 8 {
+            out[n] = (true, true, first, count);
+            n += 1;
+            w = (w + 1) / 2;
+        }
+        if h > 8 {
+            out[n] = (false, true, first, count);
+            n += 1;
+            h = (h + 1) / 2;
+        }
+    }
+    n
+}
+
+/// Stand-in for `Vec::push` in the default-parameter harness: same effect, but the growth path is
+/// replaced by an assertion that the capacity suffices (the hook pre-reserves 16 steps). Without
+/// it a push after a conditional push reallocates under a symbolic capacity, which CBMC cannot
+/// bit-blast (out of memory in propositional reduction).
+pub fn push_within_capacity_stub<T, A: std::alloc::Allocator>(v: &mut Vec<T, A>, value: T) {
+    let len = v.len();
+    assert!(len < v.capacity(), "stub: push within the reserved capacity");
+    unsafe {
+        core::ptr::write(v.as_mut_ptr().add(len), value);
+        v.set_len(len + 1);
+    }
+}
+
+/// One band: (w, h) symbolic inside a box in which the number of steps is constant (so the step
+/// vector has a concrete length), channel configuration concrete.
+fn default_squeeze_band(wr: (u32, u32), hr: (u32, u32), three: bool, meta: bool, second_same: bool) {
+    let (w, h): (u32, u32) = (kani::any(), kani::any());
+    kani::assume(w >= wr.0 && w <= wr.1 && h >= hr.0 && h <= hr.1);
+    let first = meta as u32;
+    let (w2, h2) = if second_same { (w, h) } else { (w, h + 1) };
+    let mut got = [(false, false, 0u32, 0u32); 8];
+    let mut want = [(false, false, 0u32, 0u32); 16];
+    let n_got = match (meta, three) {
+        (false, false) => jxl_modular::verif::default_squeeze_params(0, &[(w, h)], &mut got),
+        (true, false) => jxl_modular::verif::default_squeeze_params(1, &[(3, 1), (w, h)], &mut got),
+        (false, true) => jxl_modular::verif::default_squeeze_params(0, &[(w, h), (w2, h2), (w, h)], &mut got),
+        (true, true) => jxl_modular::verif::default_squeeze_params(1, &[(3, 1), (w, h), (w2, h2), (w, h)], &mut got),
+    };
+    let count = if three { 3 } else { 1 };
+    let n_want = spec_default_squeeze(first, count, w, h, second_same, &mut want);
+    assert!(n_got == n_want);
+    let mut i = 0;
+    while i < 8 {
+        if i < n_want {
+            assert!(got[i] == want[i]);
+        }
+        i += 1;
+    }
+}
+
+// @prop C03
+// @tier quick
+// @unit jxl_modular::transform::Squeeze::set_default_params
+// @sym width and height of the first channel symbolic inside boxes in which the number of steps is constant (9..=16 x 9..=16 around the square diagonal; 9..=16 x 1..=8; 1..=8 x 9..=16; 1..=8 x 1..=8); channel configuration (1 or 3 channels, meta channel, second channel same size) enumerated as constants (the step list is a Vec: its length must be concrete)
+// @bound sides up to 64, at most 4 channels
+// @assume stub: Vec::push replaced by a push that asserts spare capacity instead of growing (the hook reserves 16 steps; the assertion is checked)
+// @oblig the derived squeeze step list (direction, in_place, begin_c, num_c per step, and the number of steps) equals the default-parameter algorithm of H.6.2.1: a square or tall image starts with a vertical step, then horizontal/vertical alternate while a side exceeds 8; the chroma pre-steps appear iff there are more than 2 channels and the first two have equal size
+#[kani::proof]
+#[kani::unwind(10)]
+#[kani::stub(std::vec::Vec::push, push_within_capacity_stub)]
+pub fn c03_default_squeeze_params_match_spec() {
+    default_squeeze_band((9, 16), (9, 16), false, false, false);
+    default_squeeze_band((9, 16), (9, 16), true, true, true);
+    default_squeeze_band((9, 16), (9, 16), true, false, false);
+    default_squeeze_band((9, 16), (1, 8), false, true, false);
+    default_squeeze_band((1, 8), (9, 16), false, false, false);
+    default_squeeze_band((1, 8), (1, 8), true, false, true);
+    kani::cover!(true, "all bands executed");
+}
+
+// @prop C03
+// @tier quick
+// @unit jxl_modular::transform::Squeeze::set_default_params
+// @sym width and height of the first channel symbolic inside boxes in which the number of steps is constant (17..=32 x 9..=16; 9..=16 x 17..=32; 17..=64 x 17..=64, where the step count varies); channel configuration (1 or 3 channels, meta channel, second channel same size) enumerated as constants (the step list is a Vec: its length must be concrete)
+// @bound sides up to 64, at most 4 channels
+// @assume stub: Vec::push replaced by a push that asserts spare capacity instead of growing (the hook reserves 16 steps; the assertion is checked)
+// @oblig the derived squeeze step list (direction, in_place, begin_c, num_c per step, and the number of steps) equals the default-parameter algorithm of H.6.2.1: a square or tall image starts with a vertical step, then horizontal/vertical alternate while a side exceeds 8; the chroma pre-steps appear iff there are more than 2 channels and the first two have equal size
+#[kani::proof]
+#[kani::unwind(10)]
+#[kani::stub(std::vec::Vec::push, push_within_capacity_stub)]
+pub fn c03_default_squeeze_params_match_spec_larger() {
+    default_squeeze_band((17, 32), (9, 16), false, false, false);
+    default_squeeze_band((9, 16), (17, 32), false, false, false);
+    default_squeeze_band((17, 64), (17, 64), true, false, true);
+    kani::cover!(true, "all bands executed");
+}
